@@ -4,7 +4,7 @@
 Require Extraction.
 Require Import ExtrOcamlBasic.
 From Coq Require Import NArith ZArith List.
-From Desert Require Import Outcome IO Types Codec CodecB CodecWf History Graph MiscProofs CodecAlt.
+From Desert Require Import Outcome IO Types Codec CodecB CodecWf History Graph CodecAlt.
 Extraction Blacklist List String Int.
 Extraction "model.ml"
   N.add N.mul N.sub N.div N.modulo N.eqb N.ltb N.leb N.of_nat N.to_nat N.succ N.pow
